@@ -3,8 +3,8 @@ from props import _civ
 import cplx_iv_ops as CI
 import iv_fun_ops as IVF
 
-LEVEL = "translation_validation"
-LEAN_MODULES = ["Props.C14", "Props.C14fun"]
+LEVEL = "proof"
+LEAN_MODULES = ["Props.C14", "Props.C15", "Props.C14fun"]
 ASSUMPTIONS = ["mpci_* arithmetic is modelled bit-exactly in Lean on top of the real interval operations whose containment is proved in Props/C14.lean "
                "for finite endpoints; containment of the complex results is decided on sample points of the input rectangles in exact arithmetic",
                "iv.mpc exp / log / cos / sin / abs / arg (and again mul / div) are NOT modelled: rectangles are SAMPLED (structured + steered "
